@@ -740,5 +740,159 @@ theorem verify_zeros (n : Nat) : verify (List.replicate n (0 : UInt8)) = false :
     have h0 := congrArg UInt8.toNat ht.1
     simp at h0
     omega
+
+/-! ## a process kill (no garbling) loses nothing that was saved -/
+
+def KPN (c : Cfg σ μ) (p nw : Option File) (d : Option σ) : Prop :=
+  ∃ x, PickleOK c p x ∧ ((nw = none ∧ x = d) ∨ ∃ s b, nw = some ⟨encS c s, b⟩ ∧ d = some s)
+
+def K (c : Cfg σ μ) (fs : FS) (D : Dur σ) : Prop := KPN c (fs .pickle) (fs .new) D.durable
+
+def AllPreD (P : FS → Dur σ → Prop) : FS → Dur σ → List (Ev σ) → Prop
+  | fs, D, [] => P fs D
+  | fs, D, e :: es => P fs D ∧ AllPreD P (applyEv fs e) (D.step e) es
+
+theorem AllPreD_end {P : FS → Dur σ → Prop} {fs : FS} {D : Dur σ} {es : List (Ev σ)}
+    (h : AllPreD P fs D es) : P (applyEvs fs es) (D.run es) := by
+  induction es generalizing fs D with
+  | nil => exact h
+  | cons e es ih => exact ih h.2
+
+theorem Dur.run_append (D : Dur σ) (a b : List (Ev σ)) : D.run (a ++ b) = (D.run a).run b := by
+  simp [Dur.run, List.foldl_append]
+
+theorem AllPreD_append {P : FS → Dur σ → Prop} {fs : FS} {D : Dur σ} {a b : List (Ev σ)}
+    (ha : AllPreD P fs D a) (hb : AllPreD P (applyEvs fs a) (D.run a) b) : AllPreD P fs D (a ++ b) := by
+  induction a generalizing fs D with
+  | nil => exact hb
+  | cons e es ih => exact ⟨ha.1, ih ha.2 hb⟩
+
+theorem AllPreD_take {P : FS → Dur σ → Prop} {fs : FS} {D : Dur σ} {es : List (Ev σ)}
+    (h : AllPreD P fs D es) (n : Nat) : P (applyEvs fs (es.take n)) (D.run (es.take n)) := by
+  induction es generalizing fs D n with
+  | nil => simpa [applyEvs, Dur.run, AllPreD] using h
+  | cons e es ih =>
+    cases n with
+    | zero => simpa [applyEvs, Dur.run] using h.1
+    | succ n => simpa [applyEvs, Dur.run] using ih h.2 n
+
+theorem saveK (c : Cfg σ μ) (fs : FS) (D : Dur σ) (s : σ) (h : K c fs D) :
+    AllPreD (K c) fs D (saveEvs c s) := by
+  have hk : KPN c (fs .pickle) (fs .new) D.durable := h
+  obtain ⟨x, hp, _⟩ := h
+  simp only [saveEvs, AllPreD, applyEv, applyOp, Dur.step, K]
+  simp [FS.set]
+  exact ⟨hk, x, hp, Or.inr ⟨s, false, rfl, rfl⟩⟩
+
+theorem callK (c : Cfg σ μ) (fs : FS) (D : Dur σ) (mem : Mem σ) (cl : Call μ) (h : K c fs D) :
+    AllPreD (K c) fs D (callStep c mem cl).2.1 := by
+  cases cl with
+  | «mut» m =>
+    simp only [callStep]
+    split
+    · split
+      · exact saveK c fs D _ h
+      · exact h
+    · exact h
+  | setAsync => exact h
+  | setSync =>
+    simp only [callStep]
+    split
+    · exact h
+    · split
+      · exact saveK c fs D _ h
+      · exact h
+
+theorem callsK (c : Cfg σ μ) (fs : FS) (D : Dur σ) (mem : Mem σ) (cls : List (Call μ)) (h : K c fs D) :
+    AllPreD (K c) fs D (runCalls c mem cls).2 := by
+  induction cls generalizing fs D mem with
+  | nil => exact h
+  | cons cl rest ih =>
+    simp only [runCalls]
+    have h1 := callK c fs D mem cl h
+    exact AllPreD_append h1 (ih _ _ _ (AllPreD_end h1))
+
+theorem finK (c : Cfg σ μ) (fs : FS) (D : Dur σ) (mem : Mem σ) (h : K c fs D) :
+    AllPreD (K c) fs D (finalizeEvs fs mem) := by
+  have hk : KPN c (fs .pickle) (fs .new) D.durable := h
+  unfold finalizeEvs
+  split
+  · obtain ⟨x, hp, hn⟩ := h
+    rcases hn with ⟨hn, hx⟩ | ⟨s, b, hn, hd⟩
+    · rw [hn] at hk
+      simp [commitOps, hn, AllPreD, applyEv, applyOp, Dur.step, K, FS.set]
+      exact hk
+    · rw [hn] at hk
+      simp [commitOps, hn, AllPreD, applyEv, applyOp, Dur.step, K, FS.set]
+      exact ⟨hk, ⟨x, hp, Or.inr ⟨s, true, rfl, hd⟩⟩, ⟨some s, Or.inr ⟨s, rfl, rfl⟩, Or.inl ⟨rfl, hd.symm⟩⟩⟩
+  · exact hk
+
+theorem initK (c : Cfg σ μ) (hc : c.Lawful) (fs : FS) (D : Dur σ) (h : K c fs D) :
+    AllPreD (K c) fs D (initRun c fs).evs ∧
+    (fs .lock = none → (initRun c fs).res = .ok D.durable) := by
+  have hk : KPN c (fs .pickle) (fs .new) D.durable := h
+  cases hl : fs .lock with
+  | some lf =>
+    simp [initRun, hl, AllPreD, applyEv, applyOp, K, Dur.step]
+    exact hk
+  | none =>
+    obtain ⟨x, hp, hn⟩ := h
+    rcases hn with ⟨hn, hx⟩ | ⟨s, b, hn, hd⟩
+    · have hld : loadDisk c (fs.set .lock (some ⟨[], false⟩)) = .ok x :=
+        loadDisk_ok c hc _ x (by simpa [FS.set] using hp)
+      rw [hn] at hk
+      rcases hp with ⟨h1, h2⟩ | ⟨t, h1, h2⟩
+      · rw [h1] at hk
+        simp [initRun, hl, hn, h1, applyOp, applyOps, commitOps, loadOps, FS.set, hld, AllPreD, applyEv, Dur.step, K]
+        exact ⟨hk, hx⟩
+      · rw [h1] at hk
+        simp [initRun, hl, hn, h1, applyOp, applyOps, commitOps, loadOps, FS.set, hld, AllPreD, applyEv, Dur.step, K]
+        exact ⟨hk, hx⟩
+    · have hv : verify (encS c s) = true := verify_enc _
+      have hp' : PickleOK c (some ⟨encS c s, true⟩) (some s) := Or.inr ⟨s, rfl, rfl⟩
+      have hld : loadDisk c ((((fs.set .lock (some ⟨[], false⟩)).set .new (some ⟨encS c s, true⟩)).set .pickle
+          (some ⟨encS c s, true⟩)).set .new none) = .ok (some s) :=
+        loadDisk_ok c hc _ (some s) (by simpa [FS.set] using hp')
+      rw [hn] at hk
+      have hk2 : KPN c (fs .pickle) (some ⟨encS c s, true⟩) D.durable := ⟨x, hp, Or.inr ⟨s, true, rfl, hd⟩⟩
+      have hk3 : KPN c (some ⟨encS c s, true⟩) none D.durable := ⟨some s, hp', Or.inl ⟨rfl, hd.symm⟩⟩
+      simp [initRun, hl, hn, hv, applyOp, applyOps, commitOps, loadOps, FS.set, hld, AllPreD, applyEv, Dur.step, K]
+      exact ⟨⟨hk, hk2, hk3⟩, hd.symm⟩
+
+theorem runInvK (c : Cfg σ μ) (hc : c.Lawful) (fs : FS) (D : Dur σ) (calls : List (Call μ))
+    (h : K c fs D) : AllPreD (K c) fs D (runInv c fs calls) := by
+  obtain ⟨h1, _⟩ := initK c hc fs D h
+  unfold runInv
+  cases hr : (initRun c fs).res with
+  | error e => simpa [hr] using h1
+  | ok x =>
+    simp only [hr]
+    have h3 := callsK c _ _ (memOf c x) calls (AllPreD_end h1)
+    have h5 := finK c _ _ (runCalls c (memOf c x) calls).1 (AllPreD_end h3)
+    refine AllPreD_append (AllPreD_append h1 h3) ?_
+    rw [applyEvs_append, Dur.run_append]
+    exact h5
+
+theorem runHistK (c : Cfg σ μ) (hc : c.Lawful) (fs : FS) (D : Dur σ) (hist : List (List (Call μ)))
+    (h : K c fs D) : AllPreD (K c) fs D (runHist c fs hist) := by
+  induction hist generalizing fs D with
+  | nil => exact h
+  | cons calls rest ih =>
+    simp only [runHist]
+    have h1 := runInvK c hc fs D calls h
+    exact AllPreD_append h1 (ih _ _ (AllPreD_end h1))
+
+theorem K_kill (c : Cfg σ μ) (fs : FS) (D : Dur σ) (h : K c fs D) : K c (recover fs (fun _ d => d)) D := by
+  obtain ⟨x, hp, hn⟩ := h
+  refine ⟨x, ?_, ?_⟩
+  · rcases hp with ⟨h1, h2⟩ | ⟨s, h1, h2⟩
+    · exact Or.inl ⟨by simp [recover, crash, FS.set, h1], h2⟩
+    · exact Or.inr ⟨s, by simp [recover, crash, FS.set, h1], h2⟩
+  · rcases hn with ⟨h1, h2⟩ | ⟨s, b, h1, h2⟩
+    · exact Or.inl ⟨by simp [recover, crash, FS.set, h1], h2⟩
+    · cases b with
+      | true => exact Or.inr ⟨s, true, by simp [recover, crash, FS.set, h1], h2⟩
+      | false => exact Or.inr ⟨s, false, by simp [recover, crash, FS.set, h1], h2⟩
+
 end
 end StateFS
